@@ -262,7 +262,7 @@ func restrictions(c Call) []*openfgav1.RelationReference {
 	return out
 }
 
-func Exec(ds storage.OpenFGADatastore, c Call, bound int) (res Result) {
+func Exec(ds storage.RelationshipTupleReader, c Call, bound int) (res Result) {
 	defer func() {
 		if p := recover(); p != nil {
 			res.Panic = fmt.Sprint(p)
